@@ -18,6 +18,7 @@ def run(ctx):
 
 
 def design(ctx):
-    import os
-    if os.path.exists(os.path.join(os.path.dirname(os.path.dirname(os.path.abspath(__file__))), "spec", "parallel", "ParDo.tla")):
-        mc(ctx, "parallel", "ParDo", "mc.cfg", "ParDo I-layer", coverage=False)
+    # D: workers / atomic counter / errgroup / Wait / sequential fast path of DoContext, every interleaving, failing
+    #    indices, caller cancellation at every step (ParDo.tla)
+    for cfg in ("pd_a.cfg", "pd_b.cfg", "pd_c.cfg", "pd_d.cfg", "pd_e.cfg"):
+        mc(ctx, "parallel", "ParDo", cfg, "ParDo I-layer " + cfg, coverage=False)
